@@ -5,11 +5,15 @@ from pathlib import Path
 ALL = [f"C{i:02d}" for i in range(1, 21)]
 PENDING_REASON = "machinery for this property is not built yet in this revision (work in progress; see DESIGN.md §10)"
 NOT_APPLICABLE = {}
+# properties whose check the integrator has run green on the current tree (manifest claims only these)
+READY = ["C06", "C17"]
 
 
 def claimed():
     out = {}
     for pid in ALL:
+        if pid not in READY:
+            continue
         if not (Path(__file__).parent / f"{pid.lower()}.py").exists():
             continue
         mod = importlib.import_module(f"harness.{pid.lower()}")
